@@ -11,20 +11,29 @@ Oracle (independent of the code under test): dense numpy Kronecker product U of 
 U psi, U rho U^dagger, (U psi)[idx s], diag(U rho U^dagger)[idx s]; rotated probabilities >= -tol and summing
 to the normalisation; default dictionary: Z = I, X/Y unitary with rows = bras of the +1/-1 eigenvectors of
 the Pauli matrices (written down here, not taken from the library)."""
-import functools, itertools, math, time
+import functools, itertools, math, os, time
 import numpy as np
 import gen
 
-RULE = ("state kinds {ComplexWaveFunction, PositiveWaveFunction, DensityMatrix with random non-zero-bias parameters; "
+RULE = ("state kinds {ComplexWaveFunction, PositiveWaveFunction (with unitaries= and with no dictionary at all -> create_dict() "
+        "fallback), DensityMatrix with random non-zero-bias parameters; "
         "explicit arbitrary complex psi; explicit Hermitian non-symmetric complex rho (indefinite and PSD)} x "
-        "all 3^n basis strings over XYZ for n<=3 (quick) / n<=4 (thorough), random longer strings n<=6, strings with "
+        "all 3^n basis strings over XYZ for n<=3 (quick) / n<=4 (thorough), random longer strings n<=6 (thorough: n<=7), strings with "
         "user-added random 2x2 unitaries (QR of complex Gaussians; passed via unitary_dict= or unitaries=, as tensor or "
-        "nested list, optionally overriding X or Y) x random batches of outcome states (repeats, any order) plus the full "
+        "nested list, optionally overriding X or Y [and Z: see Z_OVERRIDE_MODE]); basis given as str / list / numpy row; x random batches of outcome states (repeats, any order) plus the full "
         "space; a case is (state kind, n, basis string, dictionary, batch); "
         "non-trivial := basis contains Y and differs from its site-reversal")
-ASSUMPTIONS = ["the dictionary maps Z to the identity (true for create_dict(); a user overriding Z by a non-identity "
-               "matrix is outside the fast paths' contract and is not generated)",
-               "numpy kron / matmul on complex128 are the reference for the dense tensor product"]
+ASSUMPTIONS = ["the fast paths' theorems (C04_inner_prod_fastpath, C04_rho_probs_fastpath_*) are about dictionaries in which the letter Z denotes the "
+               "identity (lookup _ LZ = I by definition); with Z overridden the implementation's fast paths deviate (known finding F-C04-z-override)",
+               "numpy kron / matmul on complex128 are the reference for the dense tensor product",
+               "outcome batches are 2-D double tensors (the library's data type); other dtypes are not generated"]
+# Overriding Z by a non-identity matrix: the sweep (rotate_psi / rotate_rho) uses the overriding matrix, the fast paths
+# (_rotate_basis_state) skip every site whose LETTER is "Z".  In-quantifier failing input on the unchanged tree; the
+# integrator registered it as the OPEN known finding F-C04-z-override (match {"z_overridden": true, "call": "fastpath"}).
+# "on": generated unconditionally; fast-path oracle failures of these cases carry exactly those keys and are printed as
+# KNOWN-FINDING, every other failure (e.g. of the sweep with an overridden Z) is a violation.  "skip": not generated,
+# counted as skipped_z_override in the evidence.
+Z_OVERRIDE_MODE = os.environ.get("C04_Z_OVERRIDE", "on")        # env override for experiments
 
 S2 = math.sqrt(2.0)
 # rows = bras of the +1 / -1 eigenvectors of the Pauli matrices
@@ -101,9 +110,41 @@ def nontrivial(basis):
     return ("Y" in basis) and (basis != basis[::-1])
 
 
+def z_overridden(spec):
+    u = spec.get("user", {}).get("Z")
+    return u is not None and not np.allclose(np.array(u[0]) + 1j * np.array(u[1]), np.eye(2), rtol=0, atol=0)
+
+
+def basis_arg(spec):
+    """the basis in the form the caller passes it: str, list of letters, numpy row of letters"""
+    f = spec.get("basis_form", "str")
+    if f == "list":
+        return list(spec["basis"])
+    if f == "ndarray":
+        return np.array(list(spec["basis"]))
+    return spec["basis"]
+
+
+def close_c(got, want, bound):
+    """|got - want| <= 1e-9 |want| + 1e-10 * bound elementwise; bound = |U| |x| (the size of the summands)"""
+    got, want = np.asarray(got), np.asarray(want)
+    if got.shape != want.shape:
+        return False
+    return bool(np.all(np.abs(got - want) <= 1e-9 * np.abs(want) + 1e-10 * np.asarray(bound) + 1e-300))
+
+
+def to_c22(t):
+    """a dictionary entry as a complex 2x2 matrix, or None"""
+    try:
+        u = cnp(t)
+        return u if u.shape == (2, 2) else None
+    except Exception:
+        return None
+
+
 # ----------------------------------------------------------------------------- building the state of a spec
 def build(spec):
-    """Returns (nn_state, unitaries_arg, dict_numpy, psi_or_rho_numpy, explicit_tensor_or_None)."""
+    """Returns (nn_state, unitaries_arg, dictionary actually used as numpy, user matrices, model (arg, state) tables)."""
     import torch
     from qucumber.nn_states import ComplexWaveFunction, PositiveWaveFunction, DensityMatrix
     from qucumber.utils import unitaries as UU
@@ -116,7 +157,9 @@ def build(spec):
         kw[k] = torch.tensor(t, dtype=torch.double) if form == "tensor" else (t.tolist() if form == "list" else t)
     d = UU.create_dict(**kw)
     route = spec.get("route", "ctor")
-    if kind in ("positive",):
+    if kind == "positive" and route == "ctor":
+        route = "arg"                       # PositiveWaveFunction carries no dictionary
+    if route == "none" and (kind != "positive" or user):
         route = "arg"
     ctor_dict = d if route == "ctor" else None
     if kind in ("complex", "psi"):
@@ -136,15 +179,31 @@ def build(spec):
             gen.set_prbm(s.rbm_am, *[np.array(x) for x in p["am"]])
             gen.set_prbm(s.rbm_ph, *[np.array(x) for x in p["ph"]])
     uarg = d if route == "arg" else None
-    used = d if route == "arg" else s.unitary_dict
-    dnp = {k: cnp(v) for k, v in used.items()}
-    return s, uarg, dnp, user
+    if route == "arg":
+        used = d
+    elif route == "none":
+        used = UU.create_dict()             # what the fallback must amount to (checked against the facts + the model)
+    else:
+        used = s.unitary_dict
+    dnp = {k: to_c22(v) for k, v in used.items()}
+    return s, uarg, dnp, user, route
 
 
 def spec_desc(spec):
     return {"kind": spec["kind"], "n": spec["n"], "basis": spec["basis"], "user": sorted(spec["user"].keys()),
-            "route": spec.get("route"), "form": spec.get("user_form"), "tag": spec.get("tag"),
+            "route": spec.get("route"), "form": spec.get("user_form"), "bform": spec.get("basis_form"), "tag": spec.get("tag"),
             "nstates": len(spec["states"])}
+
+
+def extras_ok(out, n_terms_dims):
+    """include_extras=True: (value, per-term products, expanded states); anything else is not examined"""
+    try:
+        if not (isinstance(out, (tuple, list)) and len(out) == 3):
+            return False
+        val, terms, v = out
+        return terms.dim() == n_terms_dims and v.dim() == 3 and terms.shape[0] == 2
+    except Exception:
+        return False
 
 
 # ----------------------------------------------------------------------------- one case
@@ -154,36 +213,50 @@ def check_spec(ctx, spec):
     from qucumber.utils import unitaries as UU
     m = ctx.get_model()
     kind, n, basis = spec["kind"], spec["n"], spec["basis"]
-    case = spec
-    s, uarg, dnp, user = build(spec)
+    zov = z_overridden(spec)
+    case = dict(spec, z_overridden=True) if zov else spec
+    cfp = dict(case, call="fastpath") if zov else case       # tag for the fast-path oracles (known-finding match)
+    s, uarg, dnp, user, route = build(spec)
+    barg = basis_arg(spec)
     space = s.generate_hilbert_space(n)
     states = torch.tensor(spec["states"], dtype=torch.double)
     sidx = idx_of(spec["states"])
     full = space.clone()
     lets, userl = letters_for_model(basis, user)
     ctx.case(spec_desc(spec), nontrivial=nontrivial(basis))
-    ctx.count("kind:" + kind); ctx.count("n:%d" % n)
+    ctx.count("kind:" + kind); ctx.count("n:%d" % n); ctx.count("route:" + route); ctx.count("basis_form:" + spec.get("basis_form", "str"))
     if "Y" in basis:
         ctx.count("basis_has_Y")
     if spec["user"]:
         ctx.count("user_unitaries")
-    missing = [b for b in basis if b not in dnp]
+    if zov:
+        ctx.count("z_overridden")
+    missing = [b for b in basis if dnp.get(b) is None]
     if missing:
-        ctx.require("dictionary holds every letter of the basis", False, case, missing)
+        ctx.require("dictionary holds a 2x2 matrix for every letter of the basis", False, case, missing)
         return
     U = dense_U(basis, dnp)
-    # the dictionary the functions use is the one handed in: defaults + user matrices (overriding)
-    for b in set(basis):
-        want = user[b] if b in user else REF[b]
-        ctx.require("dictionary entry == default / user-supplied matrix", np.allclose(dnp[b], want, rtol=0, atol=1e-12), case,
-                    {"letter": b, "got": cl(dnp[b]), "want": cl(want)})
+    aU = np.abs(U)
+    # the dictionary the functions use: user-supplied matrices are taken as given (property: "user-added unitaries");
+    # the default letters are tied to the model's dictionary (correspondence) and to the Pauli facts in check_default_dict
+    if route == "none":
+        ml = m.call("c04_lookup_resolved", [], [], lets)
+    elif route == "arg":
+        ml = m.call("c04_lookup_resolved", [userl], [], lets)
+    else:
+        ml = m.call("c04_lookup_resolved", [], [userl], lets)
+    for b, mu in zip(basis, ml):
+        mu = from_model_c(mu)
+        if b in user:
+            ctx.require("dictionary entry == user-supplied matrix", np.allclose(dnp[b], user[b], rtol=0, atol=1e-12), case,
+                        {"letter": b, "got": cl(dnp[b]), "want": cl(user[b])})
+        ctx.agree("dictionary entry vs model lookup", [dnp[b].real, dnp[b].imag], [mu.real, mu.imag], case)
 
     if kind in ("complex", "positive", "psi"):
         # ------------------------------------------------------------------ wavefunctions
         if kind == "psi":
             psi_np = np.array(spec["psi"][0]) + 1j * np.array(spec["psi"][1])
-            psi_t = stack(psi_np)
-            kwp = {"psi": psi_t}
+            kwp = {"psi": stack(psi_np)}
         else:
             ok, psi0 = ctx.call("psi(space)", case, lambda: s.psi(space))
             if not ok:
@@ -195,16 +268,15 @@ def check_spec(ctx, spec):
                 return
         l1 = float(np.abs(psi_np).sum())
         want = U @ psi_np
+        bnd = aU @ np.abs(psi_np)
         # rotate_psi
-        ok, out = ctx.call("rotate_psi", case, lambda: UU.rotate_psi(s, basis, space, unitaries=uarg, **kwp))
+        ok, out = ctx.call("rotate_psi", case, lambda: UU.rotate_psi(s, barg, space, unitaries=uarg, **kwp))
         if ok:
             got = cnp(out)
-            ctx.require("rotate_psi == (U_0 (x) ... (x) U_{n-1}) psi", got.shape == want.shape and
-                        np.allclose(got, want, rtol=1e-9, atol=1e-10 * l1), case,
+            ctx.require("rotate_psi == (U_0 (x) ... (x) U_{n-1}) psi", close_c(got, want, bnd), case,
                         {"got": cl(got), "want": cl(want)})
             r = m.call("c04_rotate_psi", userl, lets, cl(psi_np))
-            ctx.agree_exact("rotate_psi size guard", True, len(r[0]) == 1, case)
-            if len(r[0]) == 1:
+            if ctx.agree_exact("rotate_psi accepted by impl and model", True, len(r[0]) == 1, case):
                 ctx.agree("rotate_psi vs model (index-level loops)", [got.real, got.imag],
                           [from_model_c(r[0][0]).real, from_model_c(r[0][0]).imag], case, scale=l1)
             ctx.agree("rotate_psi vs model (structural)", [got.real, got.imag],
@@ -218,44 +290,53 @@ def check_spec(ctx, spec):
                 ctx.require("rotated probabilities sum to the normalisation", math.isclose(tot, Z, rel_tol=1e-8), case,
                             {"sum": tot, "normalisation": Z})
         # rotate_psi_inner_prod on the batch
-        ok, out = ctx.call("rotate_psi_inner_prod", case,
-                           lambda: UU.rotate_psi_inner_prod(s, basis, states, unitaries=uarg, **kwp))
+        fp_ok = True
+        ok, out = ctx.call("rotate_psi_inner_prod", cfp,
+                           lambda: UU.rotate_psi_inner_prod(s, barg, states, unitaries=uarg, **kwp))
         if ok:
             got = cnp(out)
-            ctx.require("rotate_psi_inner_prod == (U psi)[idx s]", got.shape == (len(sidx),) and
-                        np.allclose(got, want[sidx], rtol=1e-9, atol=1e-10 * l1), case,
-                        {"got": cl(got), "want": cl(want[sidx])})
-            r = from_model_c(m.call("c04_inner_prod", userl, lets, cl(psi_np), spec["states"]))
-            ctx.agree("rotate_psi_inner_prod vs model", [got.real, got.imag], [r.real, r.imag], case, scale=l1)
+            fp_ok = ctx.require("rotate_psi_inner_prod == (U psi)[idx s]", close_c(got, want[sidx], bnd[sidx]), cfp,
+                                {"got": cl(got), "want": cl(want[sidx])})
+            if fp_ok or not zov:
+                r = from_model_c(m.call("c04_inner_prod", userl, lets, cl(psi_np), spec["states"]))
+                ctx.agree("rotate_psi_inner_prod vs model", [got.real, got.imag], [r.real, r.imag], case, scale=l1)
         # the full space, shuffled: probabilities non-negative by construction, must sum to the normalisation
         perm = np.array(spec.get("perm", list(range(2 ** n))))
-        ok, out = ctx.call("rotate_psi_inner_prod(full space)", case,
-                           lambda: UU.rotate_psi_inner_prod(s, basis, full[perm], unitaries=uarg, **kwp))
+        ok, out = ctx.call("rotate_psi_inner_prod(full space)", cfp,
+                           lambda: UU.rotate_psi_inner_prod(s, barg, full[perm], unitaries=uarg, **kwp))
         if ok:
             got = cnp(out)
-            ctx.require("rotate_psi_inner_prod over the whole space == U psi (permuted)",
-                        np.allclose(got, want[perm], rtol=1e-9, atol=1e-10 * l1), case,
+            ctx.require("rotate_psi_inner_prod over the whole space == U psi (permuted)", close_c(got, want[perm], bnd[perm]), cfp,
                         {"got": cl(got), "want": cl(want[perm])})
-            tot = float((np.abs(got) ** 2).sum())
+            tot = float((np.abs(got) ** 2).sum()) if got.ndim == 1 else float("nan")
             ref = float((np.abs(psi_np) ** 2).sum())
-            ctx.require("sum_s |<s|U psi>|^2 == sum |psi|^2", math.isclose(tot, ref, rel_tol=1e-8), case, {"sum": tot, "ref": ref})
-        # include_extras: expansion states and per-term products
-        ok, out = ctx.call("rotate_psi_inner_prod(include_extras)", case,
-                           lambda: UU.rotate_psi_inner_prod(s, basis, states, unitaries=uarg, include_extras=True, **kwp))
-        if ok:
+            ctx.require("sum_s |<s|U psi>|^2 == sum |psi|^2", math.isclose(tot, ref, rel_tol=1e-8), cfp, {"sum": tot, "ref": ref})
+        # include_extras=True: the call must work; the layout of the extras is not part of the property, so it is
+        # compared with the model only when it has the present layout, as sets keyed by the expanded state
+        ok, out = ctx.call("rotate_psi_inner_prod(include_extras)", cfp,
+                           lambda: UU.rotate_psi_inner_prod(s, barg, states, unitaries=uarg, include_extras=True, **kwp))
+        if ok and not extras_ok(out, 3):
+            ctx.count("extras_layout_not_examined")
+        elif ok and (fp_ok or not zov):
             Upsi, Upsi_v, v = out
             ex = m.call("c04_expansions", userl, lets, spec["states"])
             vi = v.detach().cpu().numpy().round().astype(int)
             terms = cnp(Upsi_v)
-            for b in range(len(sidx)):
-                # the order of the expansion is not constrained by the property: compare as sets keyed by v
-                mv = np.array([[int(x) for x in row] for row in ex[b][0]])
-                oi, om = np.argsort(idx_of(vi[:, b, :]), kind="stable"), np.argsort(idx_of(mv), kind="stable")
-                if ctx.agree_exact("expanded basis states v (as a set)", vi[oi, b, :].tolist(), mv[om].tolist(), case):
-                    ut = from_model_c(ex[b][1])
-                    tv = (ut * psi_np[idx_of(mv)])[om]
-                    ctx.agree("terms Ut(v) psi(v)", [terms[oi, b].real, terms[oi, b].imag], [tv.real, tv.imag], case, scale=l1)
-            ctx.require("extras: Upsi == sum of its terms", np.allclose(cnp(Upsi), terms.sum(0), rtol=1e-9, atol=1e-10 * l1), case)
+            if vi.shape[1] == len(sidx) and terms.shape[1] == len(sidx):
+                for b in range(len(sidx)):
+                    mv = np.array([[int(x) for x in row] for row in ex[b][0]])
+                    if vi[:, b, :].shape != mv.shape:
+                        ctx.count("extras_layout_not_examined")
+                        continue
+                    oi, om = np.argsort(idx_of(vi[:, b, :]), kind="stable"), np.argsort(idx_of(mv), kind="stable")
+                    if ctx.agree_exact("expanded basis states v (as a set)", vi[oi, b, :].tolist(), mv[om].tolist(), case):
+                        ut = from_model_c(ex[b][1])
+                        tv = (ut * psi_np[idx_of(mv)])[om]
+                        ctx.agree("terms Ut(v) psi(v)", [terms[oi, b].real, terms[oi, b].imag], [tv.real, tv.imag], case, scale=l1)
+                gv = cnp(Upsi)
+                ctx.agree("extras: value vs (U psi)[idx s]", [gv.real, gv.imag], [want[sidx].real, want[sidx].imag], case, scale=l1)
+            else:
+                ctx.count("extras_layout_not_examined")
     else:
         # ------------------------------------------------------------------ density matrices
         if kind == "rho":
@@ -272,68 +353,101 @@ def check_spec(ctx, spec):
                 return
         l1 = float(np.abs(rho_np).sum())
         want = U @ rho_np @ U.conj().T
-        wd = np.real(np.diag(want))
-        ok, out = ctx.call("rotate_rho", case, lambda: UU.rotate_rho(s, basis, space, unitaries=uarg, **kwr))
+        bnd = aU @ np.abs(rho_np) @ aU.T
+        wd, bd = np.real(np.diag(want)), np.diag(bnd)
+        ok, out = ctx.call("rotate_rho", case, lambda: UU.rotate_rho(s, barg, space, unitaries=uarg, **kwr))
         if ok:
             got = cnp(out)
-            ctx.require("rotate_rho == U rho U^dagger", got.shape == want.shape and
-                        np.allclose(got, want, rtol=1e-9, atol=1e-10 * l1), case,
+            ctx.require("rotate_rho == U rho U^dagger", close_c(got, want, bnd), case,
                         {"got": cl(got) if n <= 2 else "omitted", "maxdiff": float(np.abs(got - want).max()) if got.shape == want.shape else None})
             r = m.call("c04_rotate_rho", userl, lets, cl(rho_np))
-            ctx.agree_exact("rotate_rho size guard", True, len(r[0]) == 1, case)
-            if len(r[0]) == 1:
+            if ctx.agree_exact("rotate_rho accepted by impl and model", True, len(r[0]) == 1, case):
                 mi = from_model_c(r[0][0])
                 ctx.agree("rotate_rho vs model (index-level loops)", [got.real, got.imag], [mi.real, mi.imag], case, scale=l1)
             ms = from_model_c(r[1])
             ctx.agree("rotate_rho vs model (structural)", [got.real, got.imag], [ms.real, ms.imag], case, scale=l1)
-        ok, out = ctx.call("rotate_rho_probs", case, lambda: UU.rotate_rho_probs(s, basis, states, unitaries=uarg, **kwr))
+        fp_ok = True
+        ok, out = ctx.call("rotate_rho_probs", cfp, lambda: UU.rotate_rho_probs(s, barg, states, unitaries=uarg, **kwr))
         if ok:
             got = out.detach().cpu().numpy()
-            ctx.require("rotate_rho_probs == diag(U rho U^dagger)[idx s]", got.shape == (len(sidx),) and
-                        np.allclose(got, wd[sidx], rtol=1e-9, atol=1e-10 * l1), case,
-                        {"got": got.tolist(), "want": wd[sidx].tolist()})
-            r = m.call("c04_rho_probs", userl, lets, cl(rho_np), spec["states"])
-            ctx.agree("rotate_rho_probs vs model", got, r, case, scale=l1)
+            fp_ok = ctx.require("rotate_rho_probs == diag(U rho U^dagger)[idx s]", close_c(got, wd[sidx], bd[sidx]), cfp,
+                                {"got": got.tolist(), "want": wd[sidx].tolist()})
+            if fp_ok or not zov:
+                r = m.call("c04_rho_probs", userl, lets, cl(rho_np), spec["states"])
+                ctx.agree("rotate_rho_probs vs model", got, r, case, scale=l1)
         perm = np.array(spec.get("perm", list(range(2 ** n))))
-        ok, out = ctx.call("rotate_rho_probs(full space)", case,
-                           lambda: UU.rotate_rho_probs(s, basis, full[perm], unitaries=uarg, **kwr))
+        ok, out = ctx.call("rotate_rho_probs(full space)", cfp,
+                           lambda: UU.rotate_rho_probs(s, barg, full[perm], unitaries=uarg, **kwr))
         if ok:
             got = out.detach().cpu().numpy()
-            ctx.require("rotate_rho_probs over the whole space == diag(U rho U^dagger) (permuted)",
-                        np.allclose(got, wd[perm], rtol=1e-9, atol=1e-10 * l1), case,
+            ctx.require("rotate_rho_probs over the whole space == diag(U rho U^dagger) (permuted)", close_c(got, wd[perm], bd[perm]), cfp,
                         {"got": got.tolist(), "want": wd[perm].tolist()})
             tr = float(np.real(np.trace(rho_np)))
             if kind == "dm":
                 ok2, Z = ctx.call("normalization", case, lambda: float(s.normalization(space)))
                 if ok2:
                     ctx.require("rotated probabilities sum to the normalisation", math.isclose(float(got.sum()), Z, rel_tol=1e-8,
-                                abs_tol=1e-10 * l1), case, {"sum": float(got.sum()), "normalisation": Z})
+                                abs_tol=1e-10 * l1), cfp, {"sum": float(got.sum()), "normalisation": Z})
             else:
                 ctx.require("rotated probabilities sum to tr rho", math.isclose(float(got.sum()), tr, rel_tol=1e-8, abs_tol=1e-10 * l1),
-                            case, {"sum": float(got.sum()), "trace": tr})
+                            cfp, {"sum": float(got.sum()), "trace": tr})
             if kind == "dm" or spec.get("tag") == "psd":
-                ctx.require("rotated probabilities of a physical state are non-negative", bool(np.all(got >= -1e-12 * max(1.0, l1))), case,
+                ctx.require("rotated probabilities of a physical state are non-negative", bool(np.all(got >= -1e-12 * max(1.0, l1))), cfp,
                             {"min": float(got.min())})
-        ok, out = ctx.call("rotate_rho_probs(include_extras)", case,
-                           lambda: UU.rotate_rho_probs(s, basis, states, unitaries=uarg, include_extras=True, **kwr))
-        if ok:
+        ok, out = ctx.call("rotate_rho_probs(include_extras)", cfp,
+                           lambda: UU.rotate_rho_probs(s, barg, states, unitaries=uarg, include_extras=True, **kwr))
+        if ok and not extras_ok(out, 4):
+            ctx.count("extras_layout_not_examined")
+        elif ok and (fp_ok or not zov):
             P, P_v, v = out
             ex = m.call("c04_expansions", userl, lets, spec["states"])
             vi = v.detach().cpu().numpy().round().astype(int)
             terms = cnp(P_v)
-            for b in range(min(2, len(sidx))):
-                mv = np.array([[int(x) for x in row] for row in ex[b][0]])
-                oi, om = np.argsort(idx_of(vi[:, b, :]), kind="stable"), np.argsort(idx_of(mv), kind="stable")
-                if ctx.agree_exact("expanded basis states v (as a set)", vi[oi, b, :].tolist(), mv[om].tolist(), case):
-                    ut = from_model_c(ex[b][1])
-                    ii = idx_of(mv)
-                    tv = (np.outer(ut, ut.conj()) * rho_np[np.ix_(ii, ii)])[np.ix_(om, om)]
-                    ti = terms[:, :, b][np.ix_(oi, oi)]
-                    ctx.agree("terms Ut(v) conj Ut(v') rho(v,v')", [ti.real, ti.imag], [tv.real, tv.imag], case, scale=l1)
+            if vi.shape[1] == len(sidx) and terms.shape[-1] == len(sidx):
+                for b in range(min(2, len(sidx))):
+                    mv = np.array([[int(x) for x in row] for row in ex[b][0]])
+                    if vi[:, b, :].shape != mv.shape or terms.shape[:2] != (len(mv), len(mv)):
+                        ctx.count("extras_layout_not_examined")
+                        continue
+                    oi, om = np.argsort(idx_of(vi[:, b, :]), kind="stable"), np.argsort(idx_of(mv), kind="stable")
+                    if ctx.agree_exact("expanded basis states v (as a set)", vi[oi, b, :].tolist(), mv[om].tolist(), case):
+                        ut = from_model_c(ex[b][1])
+                        ii = idx_of(mv)
+                        tv = (np.outer(ut, ut.conj()) * rho_np[np.ix_(ii, ii)])[np.ix_(om, om)]
+                        ti = terms[:, :, b][np.ix_(oi, oi)]
+                        ctx.agree("terms Ut(v) conj Ut(v') rho(v,v')", [ti.real, ti.imag], [tv.real, tv.imag], case, scale=l1)
+                ctx.agree("extras: value vs diag(U rho U^dagger)[idx s]", P.detach().cpu().numpy(), wd[sidx], case, scale=l1)
+            else:
+                ctx.count("extras_layout_not_examined")
     ctx.traces += 1
 
 
 # ----------------------------------------------------------------------------- dictionary facts
+def dict_facts(ctx, d, case, label):
+    """The property's statements about a default dictionary: Z -> I; X, Y unitary with rows = bras of the +1 / -1
+    eigenvectors of the Pauli matrices (nothing about further keys, dtype, layout or phases)."""
+    us = {}
+    for name in "XYZ":
+        u = to_c22(d[name]) if name in d else None
+        if not ctx.require("%s maps %s to a 2x2 complex matrix ([re, im] stack)" % (label, name), u is not None, case, sorted(d.keys())):
+            continue
+        us[name] = u
+        ctx.require("%s: %s is unitary (U U^dagger = I)" % (label, name), np.allclose(u @ u.conj().T, np.eye(2), rtol=0, atol=1e-12), case, cl(u))
+        ctx.require("%s: %s is unitary (U^dagger U = I)" % (label, name), np.allclose(u.conj().T @ u, np.eye(2), rtol=0, atol=1e-12), case, cl(u))
+        if name == "Z":
+            ctx.require("%s: Z is the identity" % label, np.allclose(u, np.eye(2), rtol=0, atol=1e-15), case, cl(u))
+        else:
+            P = PAULI[name]
+            for kk, lam in ((0, 1.0), (1, -1.0)):
+                vec = u.conj().T[:, kk]          # U^dagger e_k
+                ctx.require("%s: row %d of %s is the bra of the %+d eigenvector of Pauli %s" % (label, kk, name, int(lam), name),
+                            np.allclose(P @ vec, lam * vec, rtol=0, atol=1e-12) and math.isclose(float(np.linalg.norm(vec)), 1.0, abs_tol=1e-12),
+                            case, {"row": cl(u[kk]), "P v": cl(P @ vec)})
+    if len(d) > 3:
+        ctx.count("default_dictionary_has_further_keys")
+    return us
+
+
 def check_default_dict(ctx):
     import torch
     from qucumber.utils import unitaries as UU
@@ -344,58 +458,50 @@ def check_default_dict(ctx):
     ok, d = ctx.call("create_dict()", case, UU.create_dict)
     if not ok:
         return
-    ctx.require("default dictionary has exactly the keys X, Y, Z", sorted(d.keys()) == ["X", "Y", "Z"], case, sorted(d.keys()))
+    us = dict_facts(ctx, d, case, "create_dict()")
     mm = m.call("c04_default_dict")
     for k, name in enumerate("XYZ"):
-        if name not in d:
-            continue
-        u = cnp(d[name])
-        ctx.require("dictionary entries are double (2,2,2) tensors", tuple(d[name].shape) == (2, 2, 2) and d[name].dtype == torch.double, case, name)
-        mu = from_model_c(mm[k])
-        ctx.agree("create_dict()[%s] vs model" % name, [u.real, u.imag], [mu.real, mu.imag], case)
-        ctx.require("%s is unitary (U U^dagger = I)" % name, np.allclose(u @ u.conj().T, np.eye(2), rtol=0, atol=1e-12), case, cl(u))
-        ctx.require("%s is unitary (U^dagger U = I)" % name, np.allclose(u.conj().T @ u, np.eye(2), rtol=0, atol=1e-12), case, cl(u))
-        if name == "Z":
-            ctx.require("Z is the identity", np.array_equal(u, np.eye(2)), case, cl(u))
-        else:
-            P = PAULI[name]
-            for kk, lam in ((0, 1.0), (1, -1.0)):
-                vec = u.conj().T[:, kk]          # U^dagger e_k
-                ctx.require("row %d of %s is the bra of the %+d eigenvector of Pauli %s" % (kk, name, int(lam), name),
-                            np.allclose(P @ vec, lam * vec, rtol=0, atol=1e-12) and math.isclose(float(np.linalg.norm(vec)), 1.0, abs_tol=1e-12),
-                            case, {"row": cl(u[kk]), "P v": cl(P @ vec)})
-    # fresh states carry the default dictionary
+        if name in us:
+            mu = from_model_c(mm[k])
+            ctx.agree("create_dict()[%s] vs model" % name, [us[name].real, us[name].imag], [mu.real, mu.imag], case)
+    # fresh states carry a default dictionary with the same properties
     for mk, nm in ((lambda: ComplexWaveFunction(2, 2, gpu=False), "ComplexWaveFunction"), (lambda: DensityMatrix(2, 2, 2, gpu=False), "DensityMatrix")):
         ok, st = ctx.call(nm + " construction", case, mk)
         if ok:
-            same = sorted(st.unitary_dict.keys()) == ["X", "Y", "Z"] and all(
-                np.allclose(cnp(st.unitary_dict[k]), REF[k], rtol=0, atol=1e-15) for k in "XYZ")
-            ctx.require("fresh %s carries the default dictionary" % nm, same, case)
-    # user-added matrices: added / overriding, cloned, double
+            us2 = dict_facts(ctx, st.unitary_dict, case, "fresh " + nm)
+            for k, name in enumerate("XYZ"):
+                if name in us2:
+                    mu = from_model_c(mm[k])
+                    ctx.agree("fresh %s dictionary [%s] vs model" % (nm, name), [us2[name].real, us2[name].imag], [mu.real, mu.imag], case)
+    # user-added matrices: present with the given values, overriding a default of the same name
     rng = ctx.rng
     a, b = rand_unitary(rng), rand_unitary(rng)
     ta = torch.tensor(np.stack([a.real, a.imag]), dtype=torch.float64)
-    lb = np.stack([b.real, b.imag])
-    if PROBE_LIST_FORM:
-        lb = lb.tolist()
-    case2 = {"call": "create_dict", "kwargs": {"A": cl(a), "Y": cl(b)}, "user_form": "list" if PROBE_LIST_FORM else "ndarray"}
+    lb = np.stack([b.real, b.imag]).tolist()
+    case2 = {"call": "create_dict", "kwargs": {"A": cl(a), "Y": cl(b)}, "user_form": "list"}
     ctx.case({"call": "create_dict", "kw": ["A", "Y"]}, nontrivial=True)
-    ok, d2 = ctx.call("create_dict(A=tensor, Y=array)", case2, lambda: UU.create_dict(A=ta, Y=lb))
+    ok, d2 = ctx.call("create_dict(A=tensor, Y=nested list)", case2, lambda: UU.create_dict(A=ta, Y=lb))
     if ok:
-        ctx.require("create_dict(**kw) adds the given operators and overrides defaults",
-                    sorted(d2.keys()) == ["A", "X", "Y", "Z"] and np.allclose(cnp(d2["A"]), a, rtol=0, atol=0) and np.allclose(cnp(d2["Y"]), b, rtol=0, atol=1e-15)
-                    and np.allclose(cnp(d2["X"]), REF["X"], rtol=0, atol=1e-15) and np.array_equal(cnp(d2["Z"]), np.eye(2)), case2)
-        ctx.require("create_dict(**kw) yields double tensors that do not alias the arguments",
-                    d2["A"].dtype == torch.double and d2["Y"].dtype == torch.double and d2["A"].data_ptr() != ta.data_ptr(), case2)
-        lk = m.call("c04_lookup", [cl(a), cl(b)], [0, 4, 2, 3])          # X, Y:=user[1], Z, A:=user[0]
-        for nm, mu in zip(["X", "Y", "Z", "A"], lk):
-            u = cnp(d2[nm]); mu = from_model_c(mu)
-            ctx.agree("create_dict(**kw)[%s] vs model lookup" % nm, [u.real, u.imag], [mu.real, mu.imag], case2)
+        g = {k: (to_c22(d2[k]) if k in d2 else None) for k in "AXYZ"}
+        ctx.require("create_dict(**kw) holds the given operators (overriding a default of the same name) next to the other defaults",
+                    all(v is not None for v in g.values()) and np.allclose(g["A"], a, rtol=0, atol=1e-15)
+                    and np.allclose(g["Y"], b, rtol=0, atol=1e-15) and np.allclose(g["Z"], np.eye(2), rtol=0, atol=1e-15), case2,
+                    {k: (cl(v) if v is not None else None) for k, v in g.items()})
+        try:
+            if d2["A"].data_ptr() == ta.data_ptr():
+                ctx.count("create_dict_aliases_argument")
+        except Exception:
+            pass
+        if all(v is not None for v in g.values()):
+            lk = m.call("c04_lookup", [cl(a), cl(b)], [0, 4, 2, 3])          # X, Y:=user[1], Z, A:=user[0]
+            for nm, mu in zip(["X", "Y", "Z", "A"], lk):
+                mu = from_model_c(mu)
+                ctx.agree("create_dict(**kw)[%s] vs model lookup" % nm, [g[nm].real, g[nm].imag], [mu.real, mu.imag], case2)
 
 
 def check_size_guard(ctx):
-    """_kron_mult raises on incompatible sizes; the model returns None"""
-    import torch
+    """Malformed stream (not part of the property): a psi whose length is not 2^len(basis).  Correspondence only:
+    implementation raises (any exception class) <-> the model's guard rejects."""
     from qucumber.utils import unitaries as UU
     from qucumber.nn_states import ComplexWaveFunction
     m = ctx.get_model()
@@ -409,9 +515,9 @@ def check_size_guard(ctx):
             raised = None
         except Exception as e:
             raised = type(e).__name__
+        ctx.count("size_guard_exception:%s" % raised)
         r = m.call("c04_rotate_psi", [], ["XYZ".index(b) for b in basis], cl(psi))
-        ctx.agree_exact("incompatible sizes are rejected", raised is not None, len(r[0]) == 0, case)
-        ctx.require("incompatible sizes raise ValueError", raised == "ValueError", case, raised)
+        ctx.agree_exact("incompatible sizes: implementation raises <-> model rejects", raised is not None, len(r[0]) == 0, case)
 
 
 # ----------------------------------------------------------------------------- generators
@@ -426,12 +532,14 @@ def rand_states(ctx, n, full_ok=True):
     return sp[ii].tolist()
 
 
-def rand_user(ctx, basis_len, override_ok=True):
-    """pick 1-2 user letters (possibly overriding X or Y) and a basis string using them"""
+def rand_user(ctx, basis_len, override_ok=True, override_z=False):
+    """pick 1-2 user letters (possibly overriding X or Y; Z when asked) and a basis string using them"""
     rng = ctx.rng
     k = int(rng.integers(1, 3))
     names = list(rng.choice(USER_NAMES, size=k, replace=False))
-    if override_ok and rng.random() < 0.3:
+    if override_z:
+        names[0] = "Z"
+    elif override_ok and rng.random() < 0.3:
         names[0] = str(rng.choice(["X", "Y"]))
     user = {}
     for nm in names:
@@ -443,10 +551,10 @@ def rand_user(ctx, basis_len, override_ok=True):
         else:
             u = rand_unitary(rng)
         user[str(nm)] = [u.real.tolist(), u.imag.tolist()]
-    alphabet = ["X", "Y", "Z"] + [str(x) for x in names]
+    alphabet = sorted(set(["X", "Y", "Z"] + [str(x) for x in names]))
     while True:
         basis = "".join(rng.choice(alphabet, size=basis_len))
-        if any(b in user for b in basis):
+        if any(b in user for b in basis) and (not override_z or "Z" in basis):
             break
     return user, basis
 
@@ -482,7 +590,11 @@ def rand_rho(ctx, n):
 
 def base_spec(ctx, kind, n, params_cache):
     rng = ctx.rng
-    spec = {"kind": kind, "n": n, "user": {}, "route": str(rng.choice(["ctor", "arg"])), "user_form": str(rng.choice(USER_FORMS))}
+    spec = {"kind": kind, "n": n, "user": {}, "user_form": str(rng.choice(USER_FORMS)),
+            "basis_form": str(rng.choice(["str", "list", "ndarray"], p=[0.6, 0.2, 0.2]))}
+    # which dictionary reaches the rotation: the state's (ctor), the unitaries= argument (arg), or -- for a
+    # PositiveWaveFunction, which has none -- the create_dict() fallback (none)
+    spec["route"] = str(rng.choice(["arg", "none"])) if kind == "positive" else str(rng.choice(["ctor", "arg"]))
     if kind in ("complex", "positive", "dm"):
         key = (kind, n)
         if key not in params_cache:
@@ -497,6 +609,12 @@ def base_spec(ctx, kind, n, params_cache):
 
 
 KINDS = ["complex", "positive", "psi", "dm", "rho"]
+
+
+def finish(ctx, spec, n):
+    spec["states"] = rand_states(ctx, n)
+    spec["perm"] = ctx.rng.permutation(2 ** n).tolist()
+    check_spec(ctx, spec)
 
 
 def run(ctx):
@@ -514,24 +632,7 @@ def run(ctx):
                 for kind in KINDS:
                     spec = base_spec(ctx, kind, n, cache)
                     spec["basis"] = basis
-                    spec["states"] = rand_states(ctx, n)
-                    spec["perm"] = rng.permutation(2 ** n).tolist()
-                    check_spec(ctx, spec)
-    # ---- random longer strings
-    longer = ([(4, 8), (5, 6), (6, 3)] if not ctx.thorough else [(5, 30), (6, 16)])
-    for n, cnt in longer:
-        cache = {}
-        for c in range(cnt):
-            for kind in (KINDS if (ctx.thorough or c < 2) else [str(rng.choice(KINDS))]):
-                spec = base_spec(ctx, kind, n, cache)
-                while True:
-                    basis = "".join(rng.choice(list("XYZ"), size=n, p=[0.3, 0.4, 0.3]))
-                    if nontrivial(basis) or rng.random() < 0.2:
-                        break
-                spec["basis"] = basis
-                spec["states"] = rand_states(ctx, n)
-                spec["perm"] = rng.permutation(2 ** n).tolist()
-                check_spec(ctx, spec)
+                    finish(ctx, spec, n)
     # ---- user-added unitaries
     cnt = 150 if ctx.thorough else 30
     for c in range(cnt):
@@ -539,9 +640,35 @@ def run(ctx):
         kind = KINDS[c % len(KINDS)]
         spec = base_spec(ctx, kind, n, {})
         spec["user"], spec["basis"] = rand_user(ctx, n)
-        spec["states"] = rand_states(ctx, n)
-        spec["perm"] = rng.permutation(2 ** n).tolist()
-        check_spec(ctx, spec)
+        finish(ctx, spec, n)
+    # ---- Z overridden by a non-identity unitary (see Z_OVERRIDE_MODE)
+    cntz = 40 if ctx.thorough else 10
+    if Z_OVERRIDE_MODE == "on":
+        for c in range(cntz):
+            n = int(rng.integers(1, 4))
+            kind = KINDS[c % len(KINDS)]
+            spec = base_spec(ctx, kind, n, {})
+            spec["user"], spec["basis"] = rand_user(ctx, n, override_z=True)
+            finish(ctx, spec, n)
+    else:
+        ctx.count("skipped_z_override", cntz)
+    # ---- random longer strings
+    longer = ([(4, 8), (5, 6), (6, 3)] if not ctx.thorough else [(5, 30), (6, 16), (7, 3)])
+    for n, cnt in longer:
+        cache = {}
+        for c in range(cnt):
+            if n >= 7:
+                kinds = ["complex", "psi", "positive"] if c else KINDS      # 128 x 128 matrices: once
+            else:
+                kinds = KINDS if (ctx.thorough or c < 2) else [str(rng.choice(KINDS))]
+            for kind in kinds:
+                spec = base_spec(ctx, kind, n, cache)
+                while True:
+                    basis = "".join(rng.choice(list("XYZ"), size=n, p=[0.3, 0.4, 0.3]))
+                    if nontrivial(basis) or rng.random() < 0.2:
+                        break
+                spec["basis"] = basis
+                finish(ctx, spec, n)
 
 
 def search(ctx, broken, budget_s):
@@ -558,9 +685,7 @@ def search(ctx, broken, budget_s):
                 for kind in KINDS:
                     spec = base_spec(ctx, kind, n, cache)
                     spec["basis"] = basis
-                    spec["states"] = rand_states(ctx, n)
-                    spec["perm"] = ctx.rng.permutation(2 ** n).tolist()
-                    check_spec(ctx, spec)
+                    finish(ctx, spec, n)
                     if len(ctx.failures) > n0:
                         return ctx.failures[n0]
                     if time.time() - t0 > budget_s:
@@ -582,9 +707,10 @@ def replay(ctx, rec):
     f = rec.get("failing") or {}
     case = f.get("case", {})
     print("replay:", f.get("what"), {k: case.get(k) for k in ("kind", "n", "basis", "call")})
-    if case.get("call") == "create_dict":
+    if "kind" in case:
+        spec = {k: v for k, v in case.items() if k not in ("call", "z_overridden")}
+        check_spec(ctx, spec)
+    elif case.get("call") == "create_dict":
         check_default_dict(ctx)
     elif case.get("call") == "rotate_psi":
         check_size_guard(ctx)
-    elif "kind" in case:
-        check_spec(ctx, case)
